@@ -2,8 +2,8 @@
 """Regenerate MANIFEST.json from lib/targets.py (CHECKS) and lib/claims.py (texts)."""
 import json, os, sys
 sys.path.insert(0, os.path.dirname(os.path.abspath(__file__)))
-from targets import CHECKS
-from claims import CLAIMS, NOT_APPLICABLE, HOOKS, NOTES
+from targets import CHECKS, CLAIMS
+from claims import NOT_APPLICABLE, HOOKS, NOTES
 
 VERIF = os.path.dirname(os.path.dirname(os.path.abspath(__file__)))
 props = [json.loads(l)["id"] for l in open(os.path.join(VERIF, "properties.jsonl"))]
